@@ -392,39 +392,40 @@ func fertRow(name string) *FertRow {
 
 // Profile flags steer the distribution per property.
 type Profile struct {
-	Years        [2]int  // min,max simulated years
-	HeavyRain    float64 // probability of a climate with extreme rain days
-	Stones       float64 // probability of stony horizons
-	Drain        float64 // probability of a drain
-	ShallowGW    float64 // probability of groundwater inside/near the profile
-	GWModes      []int
-	PTFProb      float64
-	ExplicitProb float64
-	Legume       float64 // bias to legumes
-	FertMax      int
-	TillMax      int
-	IrrMax       int
-	Layouts      []int
-	ETMethods    []int
-	LeachBottom  bool
-	Measurement  float64
-	Inject       float64
-	AutoProb     float64
-	MinLayers    int
-	DateFormats  []int
-	RandomOutCfg bool
-	PreStartEv   float64 // probability to add events dated before the start
-	SameDayEv    float64
-	NoneValues   float64 // probability of sentinel values in optional weather columns
-	StartOffset  float64 // probability that the weather file starts before the start year
-	ColdClimate  float64
-	Crops        []string
-	OutIntervals []int
-	TillDeep     bool
-	TillShallow  bool    // also draw tillage rows of depth 0 and 1-4 cm
-	PolarProb    float64 // probability of a latitude beyond the polar circles
-	ZeroRadProb  float64 // probability of a weather series without measured radiation (sunshine hours instead)
-	Permanent    float64 // probability of a block of permanent-crop cuts (grass / alfalfa) early in the rotation
+	Years          [2]int  // min,max simulated years
+	HeavyRain      float64 // probability of a climate with extreme rain days
+	Stones         float64 // probability of stony horizons
+	Drain          float64 // probability of a drain
+	ShallowGW      float64 // probability of groundwater inside/near the profile
+	GWModes        []int
+	PTFProb        float64
+	ExplicitProb   float64
+	Legume         float64 // bias to legumes
+	FertMax        int
+	TillMax        int
+	IrrMax         int
+	Layouts        []int
+	ETMethods      []int
+	LeachBottom    bool
+	Measurement    float64
+	Inject         float64
+	AutoProb       float64
+	MinLayers      int
+	DateFormats    []int
+	RandomOutCfg   bool
+	PreStartEv     float64 // probability to add events dated before the start
+	SameDayEv      float64
+	NoneValues     float64 // probability of sentinel values in optional weather columns
+	StartOffset    float64 // probability that the weather file starts before the start year
+	ColdClimate    float64
+	Crops          []string
+	OutIntervals   []int
+	TillDeep       bool
+	NoMidYearStart bool    // the weather series never begins inside the start year (needed where it is also written one file per year)
+	TillShallow    bool    // also draw tillage rows of depth 0 and 1-4 cm
+	PolarProb      float64 // probability of a latitude beyond the polar circles
+	ZeroRadProb    float64 // probability of a weather series without measured radiation (sunshine hours instead)
+	Permanent      float64 // probability of a block of permanent-crop cuts (grass / alfalfa) early in the rotation
 }
 
 func defaultProfile() Profile {
@@ -982,7 +983,7 @@ func genWeather(sc *Scenario, r *Rng, p Profile) {
 	if w.Layout != 0 && r.Bool(0.2) && firstYear < sc.Start.Y {
 		firstDate = firstDate.AddDays(r.Range(0, 300)) // series that does not start on 1 January
 	}
-	if r4 := NewRng(mix(mix(sc.Seed, uint64(sc.Index)), 303)); w.Layout != 0 && firstYear == sc.Start.Y && sc.Start.DOY() > 30 && r4.Bool(0.2) {
+	if r4 := NewRng(mix(mix(sc.Seed, uint64(sc.Index)), 303)); w.Layout != 0 && !p.NoMidYearStart && firstYear == sc.Start.Y && sc.Start.DOY() > 30 && r4.Bool(0.2) {
 		// a series that begins inside the start year, some days or months before the simulation starts
 		firstDate = firstDate.AddDays(r4.Range(1, sc.Start.DOY()-15))
 		w.StartsMidYear = true
